@@ -232,7 +232,7 @@ func snapshotDiff(a, b *core.Snapshot) string {
 }
 
 type stats struct {
-	scans, cycles, shortFiltered, emptyRootScans int
+	scans, cycles, shortFiltered, emptyRootScans, restores int
 }
 
 func judge(c *Case, dir string) (violation string, st stats) {
@@ -293,6 +293,9 @@ func judge(c *Case, dir string) (violation string, st stats) {
 	}
 	clock := int64(1_700_000_000)
 	var snapL *core.Snapshot
+	// lastPopulated is the root as it was at the last scan that found content
+	// (the "restore" edit puts exactly that back).
+	var lastPopulated *disk.Node
 	scanBoth := func(full bool) string {
 		sl, el, tl := L.Scan(ctx, ancestor, full)
 		sr, er, tr := R.Scan(ctx, ancestor, full)
@@ -308,6 +311,8 @@ func judge(c *Case, dir string) (violation string, st stats) {
 		}
 		if sl.Content == nil {
 			st.emptyRootScans++
+		} else if o, err := disk.Observe(r1); err == nil {
+			lastPopulated = o
 		}
 		snapL = sl
 		return ""
@@ -316,6 +321,18 @@ func judge(c *Case, dir string) (violation string, st stats) {
 		switch op.Kind {
 		case "edit":
 			clock++
+			if op.Edit == "restore" {
+				if lastPopulated == nil {
+					continue
+				}
+				for _, r := range []string{r1, r2} {
+					disk.MakeWritable(r)
+					os.RemoveAll(r)
+					disk.Build(r, lastPopulated)
+				}
+				st.restores++
+				continue
+			}
 			applyEdit(r1, op, clock)
 			applyEdit(r2, op, clock)
 		case "scan":
@@ -497,6 +514,13 @@ func drawCase(rt *rapid.T) *Case {
 		c.Ops = append(c.Ops, &Op{Kind: "edit", Edit: "write", Path: "seeded" + fmt.Sprint(n), Arg: rapid.IntRange(1, 5).Draw(rt, "seeded.arg")})
 	}
 	for n := rapid.IntRange(2, 10).Draw(rt, "ops"); n > 0; n-- {
+		if rapid.IntRange(0, 11).Draw(rt, "vanish-and-return") == 0 {
+			// The root disappears, is scanned, and comes back exactly as it
+			// was at the last scan that found content.
+			c.Ops = append(c.Ops, &Op{Kind: "scan"}, &Op{Kind: "edit", Edit: rapid.SampledFrom([]string{"rmroot", "rmroot", "clear"}).Draw(rt, "vanish")},
+				&Op{Kind: "scan", Full: rapid.Bool().Draw(rt, "vanish.full")}, &Op{Kind: "edit", Edit: "restore"}, &Op{Kind: "scan", Full: rapid.Bool().Draw(rt, "return.full")})
+			continue
+		}
 		switch rapid.IntRange(0, 9).Draw(rt, "op") {
 		case 0, 1, 2, 3:
 			op := &Op{Kind: "edit", Edit: rapid.SampledFrom([]string{"write", "write", "write", "delete", "mkdir", "link", "chmodx", "clear", "rmroot", "mkroot", "mkroot"}).Draw(rt, "edit"), Path: drawPath(rt, "edit.path"), Arg: rapid.IntRange(1, 5).Draw(rt, "edit.arg")}
@@ -545,7 +569,7 @@ func TestMirroredEndpoints(t *testing.T) {
 	if ev.ReplayPath() != "" {
 		t.Skip()
 	}
-	rec := ev.New(t, prop, "mirrored-local-and-remote", "rapid: two identical roots, one behind local.NewEndpoint, one behind remote.NewEndpoint <-> remote.ServeEndpoint over an in-memory pipe (read fragments 1/7/4096/unlimited; none or deflate compression; sha1/sha256; first baseline from a nil or a matching ancestor); 2-10 operations: identical edits on both roots (incl. emptying the root), scans (full or not), and cycles (scan, stage a generated plan, supply both receivers from the same source with an optionally corrupt file, transition); after each operation snapshots (content, flags, counters), filtered paths, signatures, results, problems (paths normalised), missing-files flags and both roots must agree, and errors must occur on both or neither; non-trivial: >= 2 scans separated by edits and >= 1 stage whose filtered list is non-empty and shorter than the request")
+	rec := ev.New(t, prop, "mirrored-local-and-remote", "rapid: two identical roots, one behind local.NewEndpoint, one behind remote.NewEndpoint <-> remote.ServeEndpoint over an in-memory pipe (read fragments 1/7/4096/unlimited; none or deflate compression; sha1/sha256; first baseline from a nil or a matching ancestor); 2-10 operations: identical edits on both roots (incl. emptying or removing the root and putting it back exactly as it was at the last scan that found content), scans (full or not), and cycles (scan, stage a generated plan, supply both receivers from the same source with an optionally corrupt file, transition); after each operation snapshots (content, flags, counters), filtered paths, signatures, results, problems (paths normalised), missing-files flags and both roots must agree, and errors must occur on both or neither; non-trivial: >= 2 scans separated by edits and >= 1 stage whose filtered list is non-empty and shorter than the request")
 	base := t.TempDir()
 	env, err := sess.NewEnv(filepath.Join(base, "data"))
 	if err != nil {
@@ -553,7 +577,7 @@ func TestMirroredEndpoints(t *testing.T) {
 	}
 	defer env.Close()
 	n := 0
-	ev.Check(t, rec, 200, 8000, func(rt *rapid.T) {
+	ev.Check(t, rec, 500, 8000, func(rt *rapid.T) {
 		c := drawCase(rt)
 		n++
 		dir := filepath.Join(base, fmt.Sprintf("c%d", n))
@@ -569,6 +593,9 @@ func TestMirroredEndpoints(t *testing.T) {
 		}
 		if st.emptyRootScans > 0 {
 			rec.Class("scan-of-missing-or-empty-root")
+		}
+		if st.restores > 0 {
+			rec.Class("root-restored-exactly-after-vanishing")
 		}
 		if st.cycles > 0 {
 			rec.Class("cycle")
